@@ -16,7 +16,7 @@ spenders of its coins and the users of its created contracts; process_committed_
 the inputs spent by id for every id and, when pooled, by inputs;
 (4) process_preconfirmed_committed_transaction saves the spender keys (move_spender_to_tentative
 when not pooled, record_tentative_spend when pooled) before they are drained by
-spend_inputs_by_tx_id / spend_inputs. The late test looks at Some(height) for Success and Failure statuses (checked, not assumed); tentative preconfirmations are dropped only by remove(&h) for h in range(..=block height); (5) every return of ExtractedOutputs::new_executed_transaction has removed the transaction's coins_created and contract_created_by_tx entries, and new_skipped_transaction goes through it.
+spend_inputs_by_tx_id / spend_inputs. The late test looks at Some(height) for Success and Failure statuses (checked, not assumed); tentative preconfirmations are dropped only by remove(&h) for h in range(..=block height); (5) every return of ExtractedOutputs::new_executed_transaction has removed the transaction's coins_created and contract_created_by_tx entries, and new_skipped_transaction goes through it. (6) SpentInputs::unspend_preconfirmed removes the InputKey::Tx marker of the rolled-back transaction on every path.
 """
 NOT_DECIDED = """Interleaving-dependent outcomes (worker thread vs. requests); values of heights."""
 
